@@ -100,7 +100,7 @@ class JaxMonitor:
         return np.where(inside, -np.log(hi - lo).sum(), -np.inf)
 
 
-def run_blackjax(cfg):
+def run_blackjax(cfg, resume_from=None):
     """BlackJAXSMC with algorithm='rwmh' through Aspire.sample_posterior."""
     import jax
     import jax.numpy as jnp
@@ -122,14 +122,27 @@ def run_blackjax(cfg):
     out = rh.Run()
     out.exception, out.result, out.mon, out.aspire, out.flow = None, None, mon, a, flow
     sink = []
+    payloads = []
+    extra = {}
+    if cfg.get("cadence") is not None:
+        extra["checkpoint_every"] = cfg["cadence"]
+    if resume_from is not None:
+        extra["resume_from"] = resume_from
+
+    def _cb(st):
+        import pickle
+
+        sink.append((st["iteration"], rh.snapshot_samples(st["samples"])))
+        payloads.append((st["iteration"], pickle.dumps(st)))
+
     try:
         res = a.sample_posterior(n_samples=cfg["N"], sampler="blackjax_smc", preconditioning=preconditioning,
                                  preconditioning_kwargs=pk, rng=np.random.default_rng(cfg["seed"]),
                                  rng_key=jax.random.key(cfg["seed"]), n_final_samples=cfg.get("n_final"),
                                  sampler_kwargs={"algorithm": "rwmh", "n_steps": 2, "sigma": 0.3},
-                                 checkpoint_callback=lambda st: sink.append((st["iteration"], rh.snapshot_samples(st["samples"]))),
-                                 **cfg["opts"])
-        out.result = {"final": rh.snapshot_samples(res), "log_evidence": float(np.asarray(res.log_evidence))}
+                                 checkpoint_callback=_cb, **extra, **cfg["opts"])
+        out.result = {"final": rh.snapshot_samples(res), "log_evidence": float(np.asarray(res.log_evidence)),
+                      "log_evidence_error": float(np.asarray(res.log_evidence_error))}
     except Exception as e:
         from env import exc_site
 
@@ -137,4 +150,5 @@ def run_blackjax(cfg):
     smp = a.sampler
     out.history = rh.snapshot_history(smp.history) if smp is not None and smp.history is not None else None
     out.sink_pops = sink
+    out.sink = payloads
     return out
